@@ -14,6 +14,7 @@ limitations under the License.
 package dir
 
 import (
+	"errors"
 	"fmt"
 	"os"
 	"path/filepath"
@@ -64,6 +65,12 @@ func (d *Dir) Write(files map[string][]byte) error {
 			return err
 		}
 		d.log.Infof("Written file %s", file)
+	}
+
+	// A previous Write (of this or an earlier process) may have died between
+	// the Symlink and the Rename below, leaving a stale link behind.
+	if err := os.Remove(d.target + ".new"); err != nil && !errors.Is(err, os.ErrNotExist) {
+		return err
 	}
 
 	if err := os.Symlink(newDir, d.target+".new"); err != nil {
